@@ -121,6 +121,6 @@ func normalise(p int, ev string, kv []any) (event, bool) {
 var hooksOff atomic.Bool
 
 func installHooks(gate func(name string, kv ...any), trace func(ev string, kv ...any)) {
-	verifhook.Gate = gate
-	verifhook.Trace = trace
+	verifhook.SetGate(gate)
+	verifhook.SetTrace(trace)
 }
